@@ -50,6 +50,10 @@ def cond_clauses(c):
         b = c.bits[0]
         if b is None:
             return None
+        if b[1] == "nos":      # NOT(OR terms) is 1 iff every term is 0
+            return (list(b[2]), False)
+        if b[1] == "os":
+            return (list(b[2]), True)
         return ([B.bnot(b)], False)
     if isinstance(c, CS):
         if c.has_top():
@@ -118,7 +122,7 @@ def decide(outs_cc, asg):
 def split_or(f, where):
     """a clause function over several cofactor pairs that is a disjunction of per-pair functions (mismatches of
     several words or-ed together before the test) -> the per-pair functions; otherwise [f]"""
-    if f is None or f[1] in ("xs", "os"):
+    if f is None or f[1] in ("xs", "os", "nos", "sp"):
         return [f]
     groups = {}
     for a in f[0]:
